@@ -186,7 +186,7 @@ static std::vector<wop> parse_script(std::string const &s)
 		wop o; o.op = t[0]; o.a = o.b = 0;
 		std::string rest = t.substr(1);
 		size_t dot = rest.find('.');
-		if (o.op == 'h' || o.op == 'c' || o.op == 't' || o.op == 'K' || o.op == 'T' || o.op == 'R' || o.op == 'G') { o.s1 = unhex(dot == std::string::npos ? rest : rest.substr(0, dot)); if (dot != std::string::npos) o.s2 = unhex(rest.substr(dot + 1)); }
+		if (o.op == 'h' || o.op == 'c' || o.op == 't' || o.op == 'K' || o.op == 'T' || o.op == 'R' || o.op == 'G' || o.op == 'L') { o.s1 = unhex(dot == std::string::npos ? rest : rest.substr(0, dot)); if (dot != std::string::npos) o.s2 = unhex(rest.substr(dot + 1)); }
 		else { o.a = atol(rest.c_str()); if (dot != std::string::npos) o.b = atol(rest.c_str() + dot + 1); }
 		v.push_back(o);
 	}
@@ -206,6 +206,7 @@ public:
 			case 'w': { std::string d = pattern_bytes((unsigned)o.b, (size_t)o.a); rs.out().write(d.data(), (std::streamsize)d.size()); break; }
 			case 'o': { std::string d = pattern_bytes((unsigned)o.b, (size_t)o.a); rs.out() << d; break; }
 			case 'p': { std::string d = pattern_bytes((unsigned)o.b, (size_t)o.a); for (char c : d) rs.out().put(c); break; }
+			case 'L': rs.out().write(o.s1.data(), (std::streamsize)o.s1.size()); break;   // literal bytes (raw modes: the header block)
 			case 'f': rs.out() << std::flush; break;
 			case 'b': rs.setbuf((int)o.a); break;
 			case 'm': rs.io_mode((cppcms::http::response::io_mode_type)o.a); break;
